@@ -1,5 +1,7 @@
 import PlzVerif.Lemmas.Glob
 import PlzVerif.Lemmas.GlobWalk
+import PlzVerif.Lemmas.GlobCompose
+import PlzVerif.Lemmas.GlobParse
 import PlzVerif.Generated.C21
 /-!
 C21  glob() returns exactly the files its documented semantics select.
@@ -19,7 +21,8 @@ witness on `Facts.canon` below.  What is proved for all inputs: the two matchers
 specification on the fragment where none of the matcher defects applies (`C21_match_exact`), the filters are exactly
 the documented ones and sub-package exclusion is by whole components (`C21_returned_iff`, `C21_subpackage_componentwise`),
 and on benign trees the walk plus the sub-package / hidden filters leave exactly the package's owned, visible entries
-(`C21_walk_exact_partial`, `C21_spec_is_selection`).
+(`C21_walk_exact_partial`, `C21_spec_is_selection`); composed: `C21_exact_partial` (walk, matchers, filters, excludes
+= `specFo`, on parsed patterns), `C21_exclude_exact`.
 -/
 namespace PlzVerif.Props.C21
 open PlzVerif.Walk PlzVerif.Glob PlzVerif.Generated
@@ -176,6 +179,25 @@ theorem C21_regex_exact (segs : List Seg) (atStart : Bool) (comps : List Name)
     rmatch (toReSegs false atStart segs) (·.isEmpty) (joinSlash comps) = segMatch segs comps :=
   toReSegs_spec false segs atStart comps ok na g hne hs hst
 
+/-- **From the pattern text to the parsed-pattern matcher: the `filepath.Match` half, proved.**  For a parsed pattern
+    without `**` whose items are what `parseGlob` produces (`canonItem`) and whose text `renderSegs segs` is a clean
+    pattern without a `**` substring, `patternToMatcher facts` -- the string-level pipeline of the model, driven by the
+    regenerated facts -- applied to the *text* accepts exactly the names `structMatch` accepts.  So for patterns
+    without `**`, `C21_match_exact` and `C21_exact_partial` are statements about the string-level model itself.
+    (The regexp half -- `ReplaceAll` chain + regexp parser vs `toReSegs` -- is tied by the driver's cross-check on
+    every case and by the `decide` examples below, not by a theorem.) -/
+theorem C21_builtin_bridge (root : List Name) (segs : List Seg) (gr : gpath root = true) (hs : segs ≠ [])
+    (hnd : hasDstar segs = false) (hc : (flattenSegs (root.map litSeg ++ segs)).all canonItem = true)
+    (hclean : cleanPat (renderSegs segs) = true) (hns : containsSub ['*', '*'] (renderSegs segs) = false) (n : Name) :
+    (patternToMatcher facts (nameOf root) (renderSegs segs)).map (·.run n) = some (structMatch root segs n) :=
+  builtin_bridge_run facts (by rw [facts_eq_canon]; rfl) root segs gr hs hnd hc hclean hns n
+
+-- the hypotheses are satisfiable, and `renderSegs` is the pattern text: `*.[a-k]?` in package `p`
+example : renderSegs [.items [.star, .lit '.', .cls false [('a', 'k')], .any]] = ['*', '.', '[', 'a', '-', 'k', ']', '?'] ∧
+    (flattenSegs ([['p']].map litSeg ++ [.items [.star, .lit '.', .cls false [('a', 'k')], .any]])).all canonItem = true ∧
+    cleanPat (renderSegs [.items [.star, .lit '.', .cls false [('a', 'k')], .any]]) = true ∧
+    containsSub ['*', '*'] (renderSegs [.items [.star, .lit '.', .cls false [('a', 'k')], .any]]) = false := by decide
+
 /-! The string-level pipeline (`ReplaceAll` chain, regexp / glob parser) and the parsed-pattern denotation used in the
     theorems accept the same names on concrete patterns (every generated case is cross-checked by the driver too). -/
 def sampleNames : List Name :=
@@ -251,5 +273,45 @@ example : benF bcfg false false true (Forest.sort (fi ['a'] (di ['s'] (fi ['B'] 
 theorem C21_spec_is_selection (cfg : Cfg) (q : Query) (top : Bool) (cs : Forest) (rel : List Name) :
     specFo cfg q top rel cs = ((ownFo cfg q.hidden top rel cs).filter (selects q)).map (·.1) :=
   specFo_eq_own cfg q top cs rel
+
+/-! ### the whole of glob, on parsed patterns -/
+
+/-- **glob() against its specification, end to end (partial).**  Take a package at `root` with a benign sorted listing
+    (`benF`, as in `C21_walk_exact_partial`), include and exclude patterns of the fragment that meet the matcher
+    hypotheses of `C21_match_exact` (`patOK`), excludes given with their text (`x.1`) and parsed form (`x.2`).  Then a
+    name other than the package directory passes *the pipeline `globber.glob` runs* -- walked (symlinks only if asked
+    for), accepted by the matcher of some include pattern, not in a recorded sub-package, not hidden by base name, removed
+    by no exclude (`shouldExcludeMatch`: base-path test, file-name-only rule, matcher) -- **iff** it is the path of an
+    entry the specification `specFo` selects.  The pipeline is the one `C21_returned_iff` shows `globOne` to compute,
+    with each compiled matcher read on the parsed pattern (`structMatch` / `exclOneS`; the string-level compile is tied
+    to that reading by the driver's cross-check on every case, not by a theorem).
+    Full statement: the same for every tree and pattern; false by the seven witnesses. -/
+theorem C21_exact_partial (cfg : Cfg) (q : Query) (root : List Name) (cs : Forest)
+    (gr : gpath root = true) (gok : Forest.gok cs.sort = true)
+    (ben : benF cfg q.hidden root.isEmpty true cs.sort = true)
+    (hroot : cfg.buildNames.contains (lastOr root) = false)
+    (hinc : ∀ segs ∈ q.includes, patOK root segs)
+    (hexc : ∀ x ∈ q.excludes, patOK root x.2 ∧ x.2.length = (splitOnSlash x.1).length ∧ gpath (splitOnSlash x.1) = true)
+    (m : Name) (hm : m ≠ nameOf root) :
+    ((m ∈ (walkDir facts cfg root (.dir cs)).files ∨ (q.symlinks = true ∧ m ∈ (walkDir facts cfg root (.dir cs)).symlinks)) ∧
+      (q.includes.any fun s => structMatch root s m) = true ∧
+      isInDirectories m (walkDir facts cfg root (.dir cs)).subPackages = false ∧
+      (q.hidden = true ∨ isHidden facts m = false) ∧
+      (q.excludes.any fun x => exclOneS root m x.1 x.2) = false)
+    ↔ ∃ e ∈ specFo cfg q root.isEmpty [] cs.sort, m = nameOf (root ++ e) :=
+  glob_struct_exact facts (by rw [facts_eq_canon]; exact ⟨rfl, rfl, rfl⟩) cfg q root cs gr gok ben hroot hinc hexc m hm
+
+-- the pattern hypotheses are satisfiable: `src/**/*.go` with exclude `*_test.go` in package `pkg`
+example : patOK [['p', 'k', 'g']] [.items [.lit 's', .lit 'r', .lit 'c'], .dstar, .items [.star, .lit '.', .lit 'g', .lit 'o']] ∧
+    patOK [['p', 'k', 'g']] [.items [.star, .lit '_', .lit 't', .lit '.', .lit 'g', .lit 'o']] := by
+  refine ⟨⟨by decide, by decide, by simp, by decide, by intro h; cases h⟩, ⟨by decide, by decide, by simp, by decide, by intro h; cases h⟩⟩
+
+/-- One exclude pattern, as `shouldExcludeMatch` treats it, against the specification's three clauses (file name only
+    for a pattern without separator; from the package directory; names the entry or a directory above it). -/
+theorem C21_exclude_exact (root : List Name) (raw : Name) (segs : List Seg) (e : List Name)
+    (gr : gpath root = true) (ge : gpath e = true) (he : e ≠ []) (hp : patOK root segs)
+    (hlen : segs.length = (splitOnSlash raw).length) (graw : gpath (splitOnSlash raw) = true) :
+    exclOneS root (nameOf (root ++ e)) raw segs = specExclOne raw segs e :=
+  exclOneS_spec root raw segs e gr ge he hp hlen graw
 
 end PlzVerif.Props.C21
